@@ -589,12 +589,12 @@ register(
     chunk=20,
     xproc_is_violation=True,
     scenario_wall_factor=3,
-    selftest_scale=3,
+    selftest_scale=20,
     tiers={"quick": {"runs": 1500}, "thorough": {"runs": 100000}},
     rule=("each scenario (machines dense in parallel regions and deep/shallow history) is executed 6 times: under 4 different salts of "
           "the StateNode hash (every set-iteration order is reachable by some salt) and twice with the unpatched address hash after "
           "perturbing the heap; the normalised traces (actions, guards, transitions, configurations, contexts) must be identical. In "
-          "addition 24 (quick) / 72 (thorough) scenarios are re-executed in a fresh interpreter under another PYTHONHASHSEED (string "
+          "addition 160 (quick) / 480 (thorough) scenarios are re-executed in a fresh interpreter under another PYTHONHASHSEED (string "
           "and bytes hashes change, so the iteration order of every set of ids changes) and the trace digests compared: for this "
           "property a difference is reported as its violation (rule trace-depends-on-hash-seed), its replay file re-runs both "
           "interpreters. "
